@@ -131,7 +131,7 @@ CLAIMED = {
    design="5/C16"),
  'C17': dict(
    text="PARTIAL. Proved (Coq): the macro's field-type parser (derive/src/parse.rs::next_type transcribed branch by branch on proc-macro token trees) consumes every well-formed type of the grammar of supported field types (paths, nested generics, references with/without lifetimes, tuples incl. unit and 1-tuples, arrays with literal or named length, never, lifetime arguments) EXACTLY, in every legal context, never panics, and yields the tree the templates expect (parse_complete; option_is_recognised); and the macro's type printer (Type::full / Category::path, modelled on the tokens of the printed string) gives back exactly the tokens the user wrote for every such type (print_parse_roundtrip); the whole declaration parser — #[difference(..)] and foreign attributes, visibility, named fields, lifetime / type / const parameters with bounds and defaults, where clauses — maps every well-formed struct declaration of the grammar to exactly the expected structure without panic or leftover (struct_parse_complete), and likewise every enum declaration with unit, tuple-like and struct-like variants, with or without the last comma (enum_parse_complete); the attribute readers of shared.rs do not depend on how items are grouped, comma-terminated or ordered (interpretation_stable, attribute_readings, parsed_field_flags); the helper that decides which lifetimes a field type uses reports exactly the lifetimes written in it (used_lifetimes_exact; this statement produced finding D11), array_lens_exact does the same for const parameters used as array lengths, and param_used_exact characterises when a type parameter counts as used (which is known finding D8, stated exactly). The proof itself produced finding D10 (a reference to a reference is not one type). TESTED, not proved: that rustc accepts the expansion and that the result obeys C01 — generated declarations (struct/field visibility, generic type/lifetime/const parameters with inline bounds, where clauses, defaults, doc comments, foreign attributes, raw-identifier fields, every difference attribute in several spellings incl. trailing commas, expose, enums with unit/tuple/struct variants) are compiled against /repo and each runs a round-trip + frame + diff_ref + self-diff test. Tie of the parser and printer models: /repo's own parser and printer (included by path in a proc-macro; the printed string is lexed again by rustc's lexer) and the extracted models run on the same generated token trees; independently, a supported type must print back as the tokens written. Known-bad constructs are compiled one by one: listed findings print KNOWN-FINDING, anything else is a violation. Also proved: the HEADER part of the code templates of derive/src/difference.rs (model P/ParseHeader.v: used_generics, Generic::ident_only / ident_with_const / full_with_const / has_where_bounds, BOUNDS / REF_BOUNDS / derive lists per feature, every item header of the struct and enum expansions as token lists): every generated impl header declares the declared parameters in order, applies the type to exactly these and repeats every requirement of the declaration in its where clause (struct_impl_headers_good, enum_impl_header_good); the diff enums of a struct declare exactly the parameters whose name an unskipped field type mentions (diff_enum_params_exact, mentioned_params_declared); every use of the diff enums applies them to exactly the parameters they declare (diff_enum_uses_consistent). The generated type definitions (model P/ParseBody.v: variant lists of both diff enums, aliases of recurse fields, panicking combinations): the borrowed enum has the owned one's variants under the same names in the same order (diff_enum_variants_aligned), the names are distinct except exactly in the case of known finding D13 (variant_names_distinct), the payload of a plain field is the type as written (plain_payload). C17 x C01 (declared_type_obeys_C01): the front end assigns every parsed declaration a shape of the universe the derive-level theorems quantify over (G/DeclShape.v::shape_of), and the C01 round-trip theorem holds of whatever shape it gets; the declarations of the derive-level workload are parsed by /repo's parser and by the model and shape_of must return the shape each was generated from. Tie: the proc-macro pd runs /repo's derive_struct_diff_struct / derive_struct_diff_enum on every generated supported declaration under 3 (quick) / 5 (thorough) feature sets and the item headers of the real expansion are compared with the extracted model.",
-   note=TB + "Found and repaired D4 (commit b511edd: raw identifiers in composed names), D7 (commit 23b505e: trailing comma in attribute lists) D11 (commit 7d21b8f: a lifetime used as generic argument, Cow<'a, str>, was not counted as used) D14 (commit 74d2d55: missing DeBin bound on the borrowed diff enum under nanoserde for a type parameter in an unordered collection field) D15 (commit bc072df: a generic enum did not compile with serde) D16 (commit 20690bb: an enum ending in a unit variant without trailing comma did not compile) D17 (commit 1e647d5: recurse on a path-qualified Option did not compile) and D18 (commit 41192ca: alias name clash between two exposed structs) D22 (commit 88295e9: its residue - struct A + field bc and struct Ab + field c got the same alias; found while proving alias_names_injective) D23 (commit 639ad13: a field of an associated type T::Item did not compile - the Into impl did not repeat the struct's where-clause items) D24 (commit de59728: an enum variant named Diff or DiffRef made Self::Diff ambiguous) D25 (commit ddc3e84: array lengths / const defaults spelled 4usize, 0x10, 1_0 were dropped or made the derive panic). Known findings kept (not small/safe repairs): D5 (all fields skipped / empty struct), D6 (recurse on a field whose type is or mentions a generic parameter / lifetime), D8 (parameter used only behind a reference), D9 (bare reference field), D10 (reference to reference), D12 (collection strategy over a non-'static type parameter or over borrowing elements), D13 (field `f_full` beside an Option recurse field `f`), D19 (a bound of a used parameter mentions a parameter used by skipped fields only), D20 (a field type that mentions Self), D21 (a where-clause item over a compound type that a field type needs is not repeated on the diff enums of a struct). Of the string templates of derive/src/difference.rs the item HEADERS (generics, bounds, where clauses, derive lists) and the generated TYPE DEFINITIONS (variant lists, aliases) are modelled and proved about; the FUNCTION BODIES (match arms of diff / diff_ref / apply_single / Into, setters) are not modelled as text: their behaviour is the subject of the Inst / R models, and that rustc accepts them is exercised by the compile test. What a generic bound or field type may be is limited to the grammar of P/ParseGrammar.v (no `dyn`, `fn`, `impl`, `as`, `?Sized`, higher-ranked bounds).",
+   note=TB + "Found and repaired D4 (commit b511edd: raw identifiers in composed names), D7 (commit 23b505e: trailing comma in attribute lists) D11 (commit 7d21b8f: a lifetime used as generic argument, Cow<'a, str>, was not counted as used) D14 (commit 74d2d55: missing DeBin bound on the borrowed diff enum under nanoserde for a type parameter in an unordered collection field) D15 (commit bc072df: a generic enum did not compile with serde) D16 (commit 20690bb: an enum ending in a unit variant without trailing comma did not compile) D17 (commit 1e647d5: recurse on a path-qualified Option did not compile) and D18 (commit 41192ca: alias name clash between two exposed structs) D22 (commit 88295e9: its residue - struct A + field bc and struct Ab + field c got the same alias; found while proving alias_names_injective) D23 (commit 639ad13: a field of an associated type T::Item did not compile - the Into impl did not repeat the struct's where-clause items) D24 (commit de59728: an enum variant named Diff or DiffRef made Self::Diff ambiguous) D25 (commit ddc3e84: array lengths / const defaults spelled 4usize, 0x10, 1_0 were dropped or made the derive panic) D26 (commit b7bd8f4: attribute values written as raw string literals). Known findings kept (not small/safe repairs): D5 (all fields skipped / empty struct), D6 (recurse on a field whose type is or mentions a generic parameter / lifetime), D8 (parameter used only behind a reference), D9 (bare reference field), D10 (reference to reference), D12 (collection strategy over a non-'static type parameter or over borrowing elements), D13 (field `f_full` beside an Option recurse field `f`), D19 (a bound of a used parameter mentions a parameter used by skipped fields only), D20 (a field type that mentions Self), D21 (a where-clause item over a compound type that a field type needs is not repeated on the diff enums of a struct). Of the string templates of derive/src/difference.rs the item HEADERS (generics, bounds, where clauses, derive lists) and the generated TYPE DEFINITIONS (variant lists, aliases) are modelled and proved about; the FUNCTION BODIES (match arms of diff / diff_ref / apply_single / Into, setters) are not modelled as text: their behaviour is the subject of the Inst / R models, and that rustc accepts them is exercised by the compile test. What a generic bound or field type may be is limited to the grammar of P/ParseGrammar.v (no `dyn`, `fn`, `impl`, `as`, `?Sized`, higher-ranked bounds).",
    technique="Coq proofs about models of the macro's front end (type parser, type printer, declaration parser, attribute readers) + dump of /repo's own front end vs the extracted models + printer and no-panic oracles + compile-and-run of generated declarations (test) + item headers of the real expansion vs the extracted template model + known-findings list",
    design="5/C17"),
  'C14': dict(
